@@ -363,7 +363,13 @@ class LabelsReader(Thread):
                     for inst in lf:
                         if not inst.is_empty:
                             instances.append(inst.numpy())
-                    instances = np.stack(instances, axis=0)
+                    if instances:
+                        instances = np.stack(instances, axis=0)
+                    else:
+                        # labelled frame without (non-empty) instances: no rows, padded with NaNs below
+                        instances = np.full(
+                            (0, len(self.labels.skeletons[0].nodes), 2), np.nan
+                        )
 
                     # Add singleton time dimension for single frames.
                     instances = np.expand_dims(
@@ -375,7 +381,7 @@ class LabelsReader(Thread):
                     num_instances, nodes = instances.shape[1:3]
 
                     # append with nans for broadcasting
-                    if self.max_instances != 1:
+                    if num_instances < self.max_instances:
                         nans = torch.full(
                             (1, np.abs(self.max_instances - num_instances), nodes, 2),
                             torch.nan,
